@@ -59,6 +59,9 @@ type fakeDynamo struct {
 	log    []wireLog
 	srv    *httptest.Server
 	bad    []string
+	// probe only (mode=retry): answer the next successful PutItem(s) with HTTP 500 AFTER applying
+	failAfterApply int
+	hook           func()
 }
 
 func newFakeDynamo() *fakeDynamo {
@@ -129,7 +132,15 @@ func (f *fakeDynamo) fail(w http.ResponseWriter, typ, msg string) {
 	fmt.Fprintf(w, `{"__type":"com.amazonaws.dynamodb.v20120810#%s","message":%q}`, typ, msg)
 }
 
+// handle = one atomic server step under the mutex; a fault-injected reply ("applied, then 500")
+// is written after the step, outside the mutex, after running the probe's hook.
 func (f *fakeDynamo) handle(w http.ResponseWriter, r *http.Request) {
+	if post := f.step(w, r); post != nil {
+		post()
+	}
+}
+
+func (f *fakeDynamo) step(w http.ResponseWriter, r *http.Request) (post func()) {
 	body, _ := io.ReadAll(r.Body)
 	if os.Getenv("VERIF_DEBUG") != "" {
 		fmt.Fprintf(realStderr, "DYNAMO %s %s\n", r.Header.Get("X-Amz-Target"), body)
@@ -150,7 +161,7 @@ func (f *fakeDynamo) handle(w http.ResponseWriter, r *http.Request) {
 		if err := json.Unmarshal(body, &q); err != nil {
 			f.bad = append(f.bad, "GetItem: bad JSON")
 			f.fail(w, "ValidationException", "bad json")
-			return
+			return nil
 		}
 		id, ok := q.Key["logID"].bytes()
 		if !ok || len(q.Key) != 1 {
@@ -181,7 +192,7 @@ func (f *fakeDynamo) handle(w http.ResponseWriter, r *http.Request) {
 		if !found {
 			lg.Rep = "noitem"
 			w.Write([]byte(`{}`))
-			return
+			return nil
 		}
 		lg.Rep = "item:" + hx(val)
 		fmt.Fprintf(w, `{"Item":{"logID":{"B":%q},"checkpoint":{"B":%q}}}`, b64(id), b64(val))
@@ -195,7 +206,7 @@ func (f *fakeDynamo) handle(w http.ResponseWriter, r *http.Request) {
 		if err := json.Unmarshal(body, &q); err != nil {
 			f.bad = append(f.bad, "PutItem: bad JSON")
 			f.fail(w, "ValidationException", "bad json")
-			return
+			return nil
 		}
 		id, ok1 := q.Item["logID"].bytes()
 		val, valNull, ok2 := q.Item["checkpoint"].bin()
@@ -219,7 +230,7 @@ func (f *fakeDynamo) handle(w http.ResponseWriter, r *http.Request) {
 		if (valNull || (oldOK && oldNull && cond == "checkpoint = :old")) && f.choice == 0 {
 			lg.Rep = "invalid"
 			f.fail(w, "ValidationException", "Supplied AttributeValue is empty, must contain exactly one of the supported datatypes")
-			return
+			return nil
 		}
 		if val == nil {
 			val = []byte{}
@@ -238,12 +249,12 @@ func (f *fakeDynamo) handle(w http.ResponseWriter, r *http.Request) {
 			f.bad = append(f.bad, "PutItem: condition expression not in the model: "+cond)
 			f.fail(w, "ValidationException", "unsupported condition")
 			lg.Rep = "unsupported"
-			return
+			return nil
 		}
 		if !holds {
 			lg.Rep = "ccf"
 			f.fail(w, "ConditionalCheckFailedException", "The conditional request failed")
-			return
+			return nil
 		}
 		if it == nil {
 			f.items[string(id)] = &dyItem{cur: val}
@@ -252,12 +263,26 @@ func (f *fakeDynamo) handle(w http.ResponseWriter, r *http.Request) {
 			it.cur = val
 		}
 		lg.Rep = "putok"
+		if f.failAfterApply > 0 {
+			// probe only: the write is applied, but the client is told 500 InternalServerError
+			f.failAfterApply--
+			lg.Rep = "putok-then-500"
+			hook := f.hook
+			return func() {
+				if hook != nil {
+					hook()
+				}
+				w.WriteHeader(500)
+				fmt.Fprint(w, `{"__type":"com.amazonaws.dynamodb.v20120810#InternalServerError","message":"internal error (verif probe)"}`)
+			}
+		}
 		w.Write([]byte(`{}`))
 	default:
 		f.bad = append(f.bad, "unexpected DynamoDB target "+target)
 		lg.Req, lg.Rep = "other:"+target, "unsupported"
 		f.fail(w, "UnknownOperationException", "unsupported")
 	}
+	return nil
 }
 
 // ---------------------------------------------------------------------------------------
@@ -278,6 +303,9 @@ type fakeS3 struct {
 	srv     *httptest.Server
 	bad     []string
 	bucket  string
+	// probe only (mode=retry)
+	failAfterApply int
+	hook           func()
 }
 
 func newFakeS3(version bool) *fakeS3 {
@@ -346,6 +374,12 @@ func decodeAWSChunked(b []byte) ([]byte, bool) {
 }
 
 func (f *fakeS3) handle(w http.ResponseWriter, r *http.Request) {
+	if post := f.step(w, r); post != nil {
+		post()
+	}
+}
+
+func (f *fakeS3) step(w http.ResponseWriter, r *http.Request) (post func()) {
 	raw, _ := io.ReadAll(r.Body)
 	f.mu.Lock()
 	defer f.mu.Unlock()
@@ -359,7 +393,7 @@ func (f *fakeS3) handle(w http.ResponseWriter, r *http.Request) {
 		f.bad = append(f.bad, "unexpected path "+r.URL.Path+" host "+r.Host)
 		lg.Req, lg.Rep = "other:"+r.Method+" "+r.URL.Path, "unsupported"
 		s3err(w, 400, "InvalidRequest", "unsupported")
-		return
+		return nil
 	}
 	key := parts[1]
 	switch r.Method {
@@ -369,7 +403,7 @@ func (f *fakeS3) handle(w http.ResponseWriter, r *http.Request) {
 		if o == nil {
 			lg.Rep = "nosuchkey"
 			s3err(w, 404, "NoSuchKey", "The specified key does not exist.")
-			return
+			return nil
 		}
 		if f.choice != 1 {
 			w.Header().Set("ETag", f.tag(o))
@@ -416,13 +450,24 @@ func (f *fakeS3) handle(w http.ResponseWriter, r *http.Request) {
 		if !write {
 			lg.Rep = "412"
 			s3err(w, 412, "PreconditionFailed", "At least one of the pre-conditions you specified did not hold")
-			return
+			return nil
 		}
 		n := &s3Obj{body: append([]byte{}, body...), ver: 1}
 		if cur != nil {
 			n.ver = cur.ver + 1
 		}
 		f.objs[key] = n
+		if f.failAfterApply > 0 {
+			f.failAfterApply--
+			lg.Rep = "putok-then-500"
+			hook := f.hook
+			return func() {
+				if hook != nil {
+					hook()
+				}
+				s3err(w, 500, "InternalError", "We encountered an internal error. Please try again.")
+			}
+		}
 		if f.choice != 1 {
 			w.Header().Set("ETag", f.tag(n))
 			lg.Rep = "putok:" + hx([]byte(f.tag(n)))
@@ -435,6 +480,7 @@ func (f *fakeS3) handle(w http.ResponseWriter, r *http.Request) {
 		lg.Req, lg.Rep = "other:"+r.Method, "unsupported"
 		s3err(w, 405, "MethodNotAllowed", "unsupported")
 	}
+	return nil
 }
 
 func b2s(b bool) string {
